@@ -442,7 +442,10 @@ static bool run_fmt(std::string const& fn, Toks& in, Out& impl, Out& ref)
             okf(impl, r);
             // (libstdc++ 12's three-argument std::hypot returns NaN for an infinite operand: the
             // reference composes glibc's two-argument hypot, which follows F.10.4.3)
-            okf(ref, fn == "hypot3" ? std::hypot(std::hypot(x, y), z) : std::hypot(x, y));
+            // (finite operands are replaced by 1 so that the composition cannot overflow on the way:
+            // in a special case only the classes of the operands matter)
+            auto cls = [](T v) -> T { return std::isfinite(v) ? T(1) : v; };
+            okf(ref, fn == "hypot3" ? std::hypot(std::hypot(cls(x), cls(y)), cls(z)) : std::hypot(x, y));
         } else {
             impl.tok("ok").tok("finite");
         }
